@@ -147,11 +147,18 @@ func nativeReplay(rf *ReplayFile, modelPath string) (failed []string, panicked s
 import (
 	"fmt"
 	"os"
+	"runtime"
 	"testing"
 )
 
 func TestZZReplay(t *testing.T) {
 	vLoadModel(os.Getenv("VERIF_REPLAY_MODEL"))
+	var zzM0, zzM1 runtime.MemStats
+	runtime.ReadMemStats(&zzM0)
+	defer func() {
+		runtime.ReadMemStats(&zzM1)
+		fmt.Printf("REPLAY-ALLOC %%d\n", zzM1.TotalAlloc-zzM0.TotalAlloc)
+	}()
 	func() {
 		defer func() {
 			if r := recover(); r != nil {
@@ -202,11 +209,23 @@ func TestZZReplay(t *testing.T) {
 		if strings.HasPrefix(l, "REPLAY-PANIC ") {
 			panicked = strings.TrimPrefix(l, "REPLAY-PANIC ")
 		}
+		if strings.HasPrefix(l, "REPLAY-ALLOC ") {
+			failed = append(failed, "alloc-bytes:"+strings.TrimPrefix(l, "REPLAY-ALLOC "))
+		}
 	}
 	return failed, panicked, out, nil
 }
 
 func replayMatches(rf *ReplayFile, failed []string, panicked string) bool {
+	if strings.HasPrefix(rf.Label, "alloc:") {
+		for _, f := range failed {
+			if strings.HasPrefix(f, "alloc-bytes:") {
+				n, _ := strconv.ParseInt(strings.TrimPrefix(f, "alloc-bytes:"), 10, 64)
+				return n > 16<<20 // tiny inputs must not cost more than 16 MiB
+			}
+		}
+		return false
+	}
 	if rf.Kind == "panic" {
 		if panicked != "" {
 			return true
